@@ -163,9 +163,12 @@ impl Tokeniser for String {
             match c {
                 '.' | '-' | '0'..='9' => {
                     // A number
-                    let number: String = consume_while(&mut it, |a| a.is_numeric() || a == '.')
-                        .into_iter()
-                        .collect();
+                    let mut number = String::new();
+                    if c == '-' {
+                        number.push(c);
+                        it.next();
+                    }
+                    number.extend(consume_while(&mut it, |a| a.is_numeric() || a == '.'));
                     if number.contains('.') {
                         let float = number.parse().map_err(crate::error::token_invalid_num)?;
                         tokens.push(Token::Float(float));
